@@ -163,6 +163,21 @@ def run_case(cs):
         if status != "crashed":
             raise RuntimeError(f"crash point {k}/{mode} not reached: {status} (event sequence diverged from the reference run)")
         role = _role(path, root)
+        if kind in ("remove",) or rng.random() < 0.06:
+            # a second run is killed on top of what the first kill left (power loss twice in a row): the generations
+            # that were committed before the two of them are still there and the history still loads
+            chain_writes = [e[0] for e in E if e[1] == "write" and str(e[2]).endswith(".tmp") and "chain" in os.path.basename(str(e[2]))]
+            for attempt in range(4 if kind == "remove" else 1):
+                if attempt:
+                    fresh()
+                    crash.run_forked(the_run, k, mode, log)
+                k2 = rng.choice(chain_writes) if chain_writes and rng.random() < 0.7 else rng.randint(1, max(1, len(E)))
+                status2, ev2 = crash.run_forked(the_run, k2, "none", log)
+                cs.evaluated()
+                cs.count("double_kill_points")
+                cs.cls(kind, role, mode, "second-kill")
+                _judge_twice(cs, root, S, {**ctx0, "crash_at": k, "mode": mode, "event": kind, "role": role, "path": path.replace(d, ""), "second_crash_at": k2, "second_status": str(status2)[:40]})
+            continue
         cs.evaluated()
         cs.count("crash_points")
         cs.count("event:" + kind)
@@ -215,6 +230,49 @@ def _parses(data, chain):
         return True
     except Exception:
         return False
+
+
+def _judge_twice(cs, root, S, ctx):
+    """after two interrupted runs in a row: what was committed before them is intact, listed and loadable"""
+    W = hist.listing(root)
+    damaged = False
+    for h, before in S.items():
+        now = W.get(h)
+        if now is None:
+            cs.violation("history-folder-vanished", {"kind": "crash-history-vanished"}, {**ctx, "history": h})
+            continue
+        for name, data in before.items():
+            if name.endswith(".mhl") and now.get(name) != data:
+                cs.violation("committed-manifest-damaged", {"kind": "crash-old-manifest", "missing": name not in now}, {**ctx, "history": h, "name": name})
+        if "ascmhl_chain.xml" in before:
+            cdata = now.get("ascmhl_chain.xml")
+            if cdata is None or not _parses(cdata, True):
+                damaged = True
+                cs.violation("chain-truncated-in-place", {"kind": "crash-chain", "state": "missing" if cdata is None else "empty" if len(cdata) == 0 else "partial", "event": ctx["event"], "role": ctx["role"], "second_kill": True}, {**ctx, "history": h})
+                continue
+            to = [(e["sequencenr"], e["path"], e["c4"]) for e in xmlread.read_chain_bytes(before["ascmhl_chain.xml"])["entries"]]
+            tn = [(e["sequencenr"], e["path"], e["c4"]) for e in xmlread.read_chain_bytes(cdata)["entries"]]
+            if tn[: len(to)] != to:
+                cs.violation("chain-lost-committed-generations", {"kind": "crash-chain-entries", "fewer": len(tn) < len(to), "second_kill": True}, {**ctx, "history": h, "before": to[-2:], "after": tn[-3:]})
+    for h, now in W.items():
+        cdata = now.get("ascmhl_chain.xml")
+        if "ascmhl_chain.xml" not in S.get(h, {}) and cdata is not None and not _parses(cdata, True):
+            damaged = True
+            cs.violation("chain-truncated-in-place", {"kind": "crash-chain", "state": "partial-first", "event": ctx["event"], "role": ctx["role"], "second_kill": True}, {**ctx, "history": h, "chain_bytes": len(cdata)})
+    for cmd, argv in (("info", [root]), ("create", [root, "-h", "md5"]), ("info", [root])):
+        r = drive.run(cmd, argv)
+        cs.evaluated()
+        cs.count("followups")
+        cs.count("followup:%s:%s" % (cmd, "internal" if r.internal else r.exit))
+        if r.internal or r.exit in (31, 32, 33):
+            first_gen_hist = [h for h in W if h not in S and "ascmhl_chain.xml" not in W[h]]
+            key = "followup-fails-after-crash"
+            if r.exit == 32 and first_gen_hist and not damaged:
+                key = "first-generation-crash-window"
+            elif damaged:
+                key = "chain-truncated-in-place"
+            cs.violation(key, {"kind": "crash-followup", "cmd": cmd, "exit": r.exit, "exc": r.exc_class, "event": ctx["event"], "role": ctx["role"], "mode": ctx["mode"], "second_kill": True}, {**ctx, "out": r.text[-300:]})
+            break
 
 
 def _judge(cs, root, S, R, ctx, prior, child_prior):
